@@ -64,7 +64,7 @@ type worker struct {
 }
 
 func (d *driverCfg) workerArgs(dir string) []string {
-	a := []string{"-dir", dir, "-sites", d.sites, "-corpus", d.corpus, "-timeout", d.jobTimeout.String()}
+	a := []string{"-dir", dir, "-sites", d.sites, "-corpus", d.corpus, "-timeout", d.jobTimeout.String(), "-known", d.known, "-prop", d.prop}
 	if d.race {
 		a = append(a, "-racelog", filepath.Join(d.scratch, "race", filepath.Base(dir)))
 	}
@@ -205,6 +205,7 @@ func driveMain() {
 		fatal2("no engine for property %q", d.prop)
 	}
 	wenv.corpus = d.corpus // the driver generates cases too (confirmation of process deaths)
+	loadSiteTable(d.sites)
 	known := loadKnown(d.known, d.prop)
 	fmt.Printf("VERIF_SEED=%d property=%s tier=%s workers=%d budget=%v\n", d.seed, d.prop, d.tier, d.workers, d.budget)
 
@@ -258,6 +259,20 @@ func driveMain() {
 	d.writeEvidence(a, wall, len(violations), report)
 	fmt.Printf("runs=%d distinct_nontrivial=%d skipped=%d wall=%.1fs exit=%d\n", a.evals, len(a.nontrivial), a.skips, wall.Seconds(), exit)
 	os.Exit(exit)
+}
+
+func loadSiteTable(path string) {
+	b, err := os.ReadFile(path)
+	if err != nil {
+		return
+	}
+	var st struct {
+		Sites    []string `json:"sites"`
+		MapSites []string `json:"map_sites"`
+	}
+	if json.Unmarshal(b, &st) == nil {
+		wenv.sites, wenv.mapSites = st.Sites, st.MapSites
+	}
 }
 
 func firstLine(s string) string {
@@ -435,30 +450,90 @@ func (d *driverCfg) minimise(eng Engine, v *Result) *Result {
 	deadline := time.Now().Add(d.minimiseFor)
 	cur := v
 	tried := 0
+	fresh := cur.Class == "process-death" || cur.Class == "hang" || cur.Class == "deadlock"
+	n := d.workers
+	// persistent workers evaluate candidates in parallel; classes that kill or wedge the
+	// process get a fresh process per candidate
+	var pool []*worker
+	if !fresh {
+		for i := 0; i < n; i++ {
+			w, err := d.spawn()
+			if err != nil {
+				fatal2("cannot start worker: %v", err)
+			}
+			pool = append(pool, w)
+		}
+		defer func() {
+			for _, w := range pool {
+				w.kill()
+			}
+		}()
+	}
 	for time.Now().Before(deadline) {
 		cands := sh.Shrinks(cur.Case)
 		progress := false
-		for _, c := range cands {
-			if time.Now().After(deadline) {
-				break
+		for lo := 0; lo < len(cands) && !progress && time.Now().Before(deadline); lo += n {
+			hi := lo + n
+			if hi > len(cands) {
+				hi = len(cands)
 			}
-			tried++
-			job := &Job{ID: -1, Prop: d.prop, Seed: c.Seed, Tier: d.tier, Case: c}
-			res, died, stderr := d.runAlone(job)
-			if died && cur.Class == "process-death" {
-				cur = &Result{Seed: c.Seed, Verdict: "violation", Class: "process-death", Sig: cur.Sig, Msg: "the process executing the build died:\n" + lastLines(stderr, 30), Case: c}
-				progress = true
-				break
+			results := make([]*Result, hi-lo)
+			var wg sync.WaitGroup
+			for i := lo; i < hi; i++ {
+				wg.Add(1)
+				go func(i int) {
+					defer wg.Done()
+					c := cands[i]
+					job := &Job{ID: -1, Prop: d.prop, Seed: c.Seed, Tier: d.tier, Case: c}
+					var res *Result
+					var died bool
+					var stderr string
+					if fresh {
+						res, died, stderr = d.runAlone(job)
+					} else {
+						w := pool[i-lo]
+						res, died = w.do(job)
+						if died {
+							w.kill()
+							nw, err := d.spawn()
+							if err != nil {
+								fatal2("cannot restart worker: %v", err)
+							}
+							pool[i-lo] = nw
+						}
+					}
+					if died && cur.Class == "process-death" {
+						results[i-lo] = &Result{Seed: c.Seed, Verdict: "violation", Class: "process-death", Sig: cur.Sig, Msg: "the process executing the build died:\n" + lastLines(stderr, 30), Case: c}
+						return
+					}
+					if !died && res != nil && res.Verdict == "violation" && res.Class == cur.Class && res.Sig == cur.Sig {
+						res.Case = c
+						results[i-lo] = res
+					}
+				}(i)
 			}
-			if !died && res != nil && res.Verdict == "violation" && res.Class == cur.Class && res.Sig == cur.Sig {
-				res.Case = c
-				cur = res
-				progress = true
-				break
+			wg.Wait()
+			tried += hi - lo
+			for _, r := range results {
+				if r != nil {
+					cur = r
+					progress = true
+					break
+				}
 			}
 		}
 		if !progress {
 			break
+		}
+	}
+	// the minimised case must reproduce in a fresh process, like any reported violation
+	if cur != v {
+		job := &Job{ID: -1, Prop: d.prop, Seed: cur.Case.Seed, Tier: d.tier, Case: cur.Case}
+		res, died, _ := d.runAlone(job)
+		okRepro := (died && cur.Class == "process-death") || (!died && res != nil && res.Verdict == "violation" && res.Class == cur.Class)
+		if !okRepro {
+			fmt.Println("minimisation: the minimised case did not reproduce in a fresh process; reporting the original case")
+			cur = v
 		}
 	}
 	fmt.Printf("minimisation: %d candidates tried\n", tried)
@@ -524,6 +599,7 @@ func replayMain() {
 		fatal2("bad replay file: %v", err)
 	}
 	d.prop = rf.Property
+	loadSiteTable(d.sites)
 	if engines[d.prop] == nil {
 		fatal2("no engine for %s", d.prop)
 	}
@@ -624,6 +700,7 @@ type knownEntry struct {
 	Status   string `json:"status"` // known | fixed
 	Class    string `json:"class"`
 	SigHas   string `json:"sig_contains"`
+	Site     string `json:"site,omitempty"` // seam site the finding is attributed to (map-order findings)
 	What     string `json:"what"`
 	Commit   string `json:"commit,omitempty"`
 }
@@ -654,6 +731,17 @@ func loadKnown(path, prop string) []knownEntry {
 		}
 	}
 	return out
+}
+
+var workerKnown []knownEntry
+
+func knownSite(prop, site string) bool {
+	for _, k := range workerKnown {
+		if k.Property == prop && k.Site != "" && k.Site == site {
+			return true
+		}
+	}
+	return false
 }
 
 func matchKnown(known []knownEntry, r *Result) string {
